@@ -61,8 +61,10 @@ def main():
             results.append({"mutant": m["name"], "property": pid, "caught": caught, "kind": kind})
     shutil.rmtree("/tmp/vmut", ignore_errors=True)
     # remove scratch build output
+    import hashlib
+    tag = hashlib.sha1(os.path.abspath(SCRATCH).encode()).hexdigest()[:8]
     for d in os.listdir(os.path.join(VERIF, "target")):
-        if "-" in d and len(d.split("-")[-1]) == 8 and d.split("-")[-1].isalnum() and not d.startswith("feat-"):
+        if d.endswith("-" + tag):
             shutil.rmtree(os.path.join(VERIF, "target", d), ignore_errors=True)
     json.dump(results, open("/tmp/sensitivity-results.json", "w"), indent=1)
 
